@@ -87,14 +87,20 @@ Record srv_inv (s : sstate) : Prop := {
 Definition over_phase (p : Client.phase) : bool :=
   match p with Client.PDone | Client.PGone => true | _ => false end.
 
+(* calls that have been polled at least once or dropped: each of them used up at most one id *)
+Definition is_new (p : Client.phase) : bool := match p with Client.PNew => true | _ => false end.
+Definition npolled (c : cstate) : nat :=
+  length (filter (fun k => negb (is_new (Client.c_phase k))) (Client.calls c)).
+
 Record cli_inv (T : N) (c : cstate) : Prop := {
   cv_live : ClientProofsG1Rec.Live c;
   cv_terminal : Client.terminal c = None;
   cv_finished : Client.finished c = None;
+  cv_fused : Client.fused c = false;
   cv_noclosing : forall k, In k (Client.calls c) -> Client.c_phase k <> Client.PClosing;
   cv_now : Client.now c = T;
   (* deadlines within the span both sides arm their timers for without clamping *)
   cv_clamp_c : forall k, In k (Client.calls c) -> (Client.c_deadline k <= T + MAXT)%N;
   cv_clamp_q : forall q, In q (Client.queue c) -> (Client.q_deadline q <= T + MAXT)%N;
-  (* a client timer is never earlier than the deadline it was armed for *)
-  cv_maxif : Client.max_if c = maxif0 }.
+  cv_maxif : Client.max_if c = maxif0;
+  cv_nid : (Client.next_id c <= N.of_nat (npolled c))%N }.
